@@ -9,6 +9,7 @@ import LapyVerif.Generated.FemTet
   is the model's output, under the traced path condition.  A change of a weight, sign, operand or index in
   `lapy/solver.py` changes the generated term and one of these proofs stops closing.
 -/
+set_option linter.unusedTactic false
 namespace LapyVerif.Bridge
 open LapyVerif
 
